@@ -327,10 +327,13 @@ def tag_obligations(rec, spec, stubs, unit):
     return rec
 
 
+DEFAULT_REFUTE_UNWIND = 6
+
+
 def _refute_without_loop_contract(uname, unit, result, tier, jobs, only):
     """A loop contract that no longer fits the loop it was written for (the loop was rewritten: the contract names a variable that is gone)
-    makes the whole translation unit unreadable for goto-cc -- every function of the unit is then undecided.  For a function that declares
-    `refute_unwind: K` the unit is translated once more WITHOUT that function's loop contracts; the other functions are verified as usual, and the
+    makes the whole translation unit unreadable for goto-cc -- every function of the unit is then undecided.  For such a function
+    (K = its `refute_unwind`, default 6) the unit is translated once more WITHOUT that function's loop contracts; the other functions are verified as usual, and the
     function itself is checked against its unchanged pre/postconditions with its loops unwound K times.  That is a bounded REFUTATION only: a failed
     obligation other than an unwinding assertion is a real counterexample to the contract (unwinding explores a subset of the executions) and is
     reported as failed; anything else stays undecided -- a bounded pass is never counted as a proof."""
@@ -338,7 +341,7 @@ def _refute_without_loop_contract(uname, unit, result, tier, jobs, only):
     if not blocked:
         return
     err = blocked[0]['reason']
-    hit = [(q, sp) for q, sp in unit['functions'].items() if sp.get('loops') and sp.get('refute_unwind') and ("In function '%s'" % sp.get('_cname')) in err]
+    hit = [(q, sp) for q, sp in unit['functions'].items() if sp.get('loops') and sp.get('refute_unwind', DEFAULT_REFUTE_UNWIND) and ("In function '%s'" % sp.get('_cname')) in err]
     if not hit:
         return
     q0 = hit[0][0]
@@ -360,7 +363,7 @@ def _refute_without_loop_contract(uname, unit, result, tier, jobs, only):
         fh.write(text2 + '\n' + harn)
     todo = [(q, sp) for q, sp in unit2['functions'].items() if sp.get('prove', True) and (only is None or q in only or sp['_cname'] in only)]
     proved_here = [sp['_cname'] for q, sp in unit2['functions'].items() if not sp.get('inline_in_callers')]
-    k = unit2['functions'][q0]['refute_unwind']
+    k = unit2['functions'][q0].get('refute_unwind', DEFAULT_REFUTE_UNWIND)
     recs = []
     with cf.ThreadPoolExecutor(max_workers=jobs) as ex:
         futs = []
